@@ -1,6 +1,6 @@
 import Txtpp.Model.Fs
 import Txtpp.Model.Lines
-/-! `BufRead::lines` on the bytes of a source: splitting at byte 10, stripping one trailing byte 13,
+/-! `BufRead::lines` on the bytes of a source: splitting at byte 10, stripping one byte 13 in front of it,
     decoding each piece as UTF-8. If every byte 13 of the source is followed by byte 10, every
     decoded line is free of `\r` and `\n` (closes the `hlines` hypothesis of C12.output_one_ending). -/
 namespace Txt
@@ -64,12 +64,18 @@ theorem crB_13 (rest : List UInt8) (h : crB (13 :: rest) = true) : ∃ r, rest =
       · simp at h
       · intro r hr; simp at hr; exact hy hr.1
 
-/-- the pieces produced by the splitting loop: no byte 10, and a byte 13 only as the very last byte
-    of a piece that was closed by a 10 -/
+theorem not_mem_of_head_tail (acc : List UInt8) (h1 : acc.head? ≠ some 13) (h2 : (13 : UInt8) ∉ acc.tail) : (13 : UInt8) ∉ acc := by
+  cases acc with
+  | nil => simp
+  | cons a as =>
+    simp only [List.mem_cons, not_or]
+    refine ⟨fun h => h1 (by simp [h]), by simpa using h2⟩
+
+/-- the pieces produced by the splitting loop contain neither byte 10 nor byte 13: a 13 is only ever
+    the last byte before a 10, where it is dropped with the terminator -/
 theorem go_spec (rest acc : List UInt8) (hacc10 : (10 : UInt8) ∉ acc) (hacc13 : (13 : UInt8) ∉ acc.tail)
     (hhead : acc.head? = some 13 → ∃ r, rest = 10 :: r) (hcr : crB rest = true) :
-    ∀ p ∈ byteLines.go rest acc, (10 : UInt8) ∉ p ∧ (13 : UInt8) ∉ p.dropLast ∧
-      (p.getLast? = some 13 → True) := by
+    ∀ p ∈ byteLines.go rest acc, (10 : UInt8) ∉ p ∧ (13 : UInt8) ∉ p := by
   induction rest generalizing acc with
   | nil =>
     intro p hp
@@ -78,20 +84,20 @@ theorem go_spec (rest acc : List UInt8) (hacc10 : (10 : UInt8) ∉ acc) (hacc13 
     · simp at hp
     · simp only [List.mem_singleton] at hp
       subst hp
-      refine ⟨by simpa using hacc10, ?_, fun _ => trivial⟩
-      -- acc.reverse.dropLast = acc.tail.reverse
-      have : acc.reverse.dropLast = acc.tail.reverse := by
-        cases acc <;> simp
-      rw [this]; simpa using hacc13
+      have hne : acc.head? ≠ some 13 := fun h => by obtain ⟨r, hr⟩ := hhead h; simp at hr
+      exact ⟨by simpa using hacc10, by simpa using not_mem_of_head_tail acc hne hacc13⟩
   | cons x xs ih =>
     intro p hp
     by_cases hx10 : x = 10
     · subst hx10
       simp only [byteLines.go, List.mem_cons] at hp
       rcases hp with rfl | hp
-      · refine ⟨by simpa using hacc10, ?_, fun _ => trivial⟩
-        have : acc.reverse.dropLast = acc.tail.reverse := by cases acc <;> simp
-        rw [this]; simpa using hacc13
+      · by_cases hh : acc.head? = some 13
+        · simp only [hh, beq_self_eq_true, if_true]
+          exact ⟨by simpa using fun hm => hacc10 (List.mem_of_mem_tail hm), by simpa using hacc13⟩
+        · have hb : (acc.head? == some 13) = false := by simpa using hh
+          simp only [hb, Bool.false_eq_true, if_false]
+          exact ⟨by simpa using hacc10, by simpa using not_mem_of_head_tail acc hh hacc13⟩
       · exact ih [] (by simp) (by simp) (by simp) (crB_tail 10 xs (by decide) hcr) p hp
     · have hgo : byteLines.go (x :: xs) acc = byteLines.go xs (x :: acc) := by
         rw [byteLines.go]
@@ -104,14 +110,7 @@ theorem go_spec (rest acc : List UInt8) (hacc10 : (10 : UInt8) ∉ acc) (hacc13 
         simp at hr; exact hx10 hr.1
       have h13' : (13 : UInt8) ∉ (x :: acc).tail := by
         simp only [List.tail_cons]
-        intro hm
-        cases acc with
-        | nil => simp at hm
-        | cons a as =>
-          simp only [List.mem_cons] at hm
-          rcases hm with h | h
-          · exact hprev (by simp [h])
-          · exact hacc13 (by simpa using h)
+        exact not_mem_of_head_tail acc hprev hacc13
       apply ih (x :: acc) (by simp [hacc10, Ne.symm hx10]) h13' ?_ ?_ p hp
       · intro hh
         simp at hh
@@ -131,23 +130,8 @@ theorem byteLines_clean (bytes : List UInt8) (h : crB bytes = true) :
   cases bytes with
   | nil => simp [byteLines] at hp
   | cons b bs =>
-    simp only [byteLines, List.mem_map] at hp
-    obtain ⟨q, hq, rfl⟩ := hp
-    obtain ⟨h10, h13, _⟩ := go_spec (b :: bs) [] (by simp) (by simp) (by simp) h q hq
-    split
-    · exact ⟨fun hm => h10 (List.dropLast_subset _ hm), h13⟩
-    · rename_i hl
-      refine ⟨h10, ?_⟩
-      intro hm
-      -- 13 ∈ q, not in dropLast, so it is the last element
-      rcases List.eq_nil_or_concat q with rfl | ⟨q', z, rfl⟩
-      · simp at hm
-      · simp only [List.concat_eq_append] at h13 hm hl
-        rw [List.dropLast_concat] at h13
-        simp only [List.mem_append, List.mem_singleton] at hm
-        rcases hm with hm | hm
-        · exact h13 hm
-        · subst hm; simp at hl
+    simp only [byteLines] at hp
+    exact go_spec (b :: bs) [] (by simp) (by simp) (by simp) h p hp
 
 /-- C12: the lines handed to the preprocessor are free of `\r` and `\n` whenever every byte 13 of
     the source is followed by byte 10 -/
